@@ -104,10 +104,13 @@ class s_float(builtins.float, metaclass=_FloatMeta):
 
 def _minmax(name, f2, real):
     def g(*a, **k):
-        if len(a) == 1:
+        single = len(a) == 1
+        if single:
             a = tuple(a[0])
         if not a:
             return real(a, **k)
+        if single and "default" in k:
+            k = {kk: vv for kk, vv in k.items() if kk != "default"}  # only used for an empty iterable
         if k:
             return real(*a, **k)
         r = a[0]
